@@ -565,7 +565,9 @@ func (r *R) genParams(g *hx.Rng, v view) string {
 	if g.Chance(1, 3) {
 		pcf = fmt.Sprintf("%d:%s", g.Range(1, 100), v.pcf.Denom)
 	}
-	switch g.Pick(12, 1, 1, 1, 1, 1, 1) {
+	switch g.Pick(12, 1, 1, 1, 1, 1, 1, 1) {
+	case 7:
+		pcf = fmt.Sprintf("%d:%s", g.Range(1, 100), []string{"x", "1ab", "-"}[g.Intn(3)])
 	case 1:
 		fee = "0"
 	case 2:
